@@ -33,6 +33,10 @@ pub use multitree::{Children, NewNode, NodeAddress, NodeRef};
 pub use options::{ColumnOptions, Options};
 pub use stats::{ColumnStatSummary, StatSummary};
 
+/// Verification hooks, only compiled with `--cfg parity_db_verif`.
+#[cfg(parity_db_verif)]
+pub mod verif;
+
 pub const KEY_SIZE: usize = 32;
 pub type Key = [u8; KEY_SIZE];
 
